@@ -156,6 +156,13 @@ func run() int {
 			continue
 		}
 		if ct.Iface {
+			if ct.Abstract {
+				if len(ct.Ensures) > 0 {
+					fmt.Fprintf(os.Stderr, "contract %s: an abstract interface contract cannot have postconditions\n", ct.Key)
+					return 2
+				}
+				continue
+			}
 			if ct.Props[*prop] {
 				for _, ik := range ct.Impls {
 					// an implementation with its own contract is verified against that one
@@ -215,6 +222,9 @@ func run() int {
 			fmt.Fprintf(os.Stderr, "gen %-70s obls=%d paths=%d %.2fs %s\n", r.Name, len(r.Obls), r.Paths, r.GenS, r.OutOfSubset)
 		}
 		for _, k := range r.UsedContracts {
+			if ct := w.Contracts[k]; ct != nil && ct.Iface && ct.Abstract {
+				continue
+			}
 			if ct := w.Contracts[k]; ct != nil && ct.Iface {
 				for _, ik := range ct.Impls {
 					if own := w.Contracts[ik]; own != nil {
